@@ -193,6 +193,8 @@ def invalid_case(fam, port, variant, seed, part, wide):
                                     lambda: inv.set_operation_mode(mode, 50, x), True)
         for _ in range(40 if wide else 12):
             sid = rnd.choice(("", "x", "nosuch", "eco_mode_9", "grid_export_limit ", "GRID_EXPORT_LIMIT", "work-mode", "mod", "time2",
+                              "80", "47000", "dod_80", "bus_2", "sub-47510", "m47000", "_1", "-5", "mod-47000", "dbus-45356", "s_45356",
+                              rnd.choice("modbus_-") * rnd.randrange(1, 4) + str(rnd.randrange(0, 65536)),
                               "".join(rnd.choice("abcdefghijklmnopqrstuvwxyz_") for _ in range(rnd.randrange(1, 12)))))
             if sid.startswith("modbus") or sid in {s.id_ for s in inv.settings()} or (fam == "ES" and sid == "time"):
                 continue
